@@ -30,7 +30,7 @@ def _spec_for(configs):
     return SPEC_MC_ANY if configs.startswith('MC_Any') else SPEC_MC
 TRACE = os.path.join(tlc.SPECS, 'SchedTrace.tla')
 
-INV_C01 = ['C01_DepsFinal', 'C01_PayloadVisible', 'C01_RunningState']
+INV_C01 = ['C01_DepsFinal', 'C01_PayloadVisible', 'C01_RunningState', 'C01_NoLateDep']
 INV_C02 = ['C02_AtMostOnce', 'C02_Outcome', 'C02_NoForeignUpdate', 'C02_SoftNeverSkips', 'C02_FromEmptyNeverRaises']
 INV_C03 = ['C03_Clean', 'M_QueueJoinable', 'TypeOK']
 ACTIONS = ['MStart', 'MAcqCv', 'MDecide', 'MPut', 'MWake', 'MQJoin', 'MStop', 'MJoin',
@@ -531,8 +531,13 @@ def classify(tr):
     inits = sorted(set(c['init']) - {'ABSENT'})
     cyc = _cyclic(dict(edges=c['edges']))
     verdict = 'ok' if tr['verdict'] in ('ok', 'pruned') else tr['verdict']
-    return 'malformed=%s;init=%s;%s;verdict=%s' % ('yes' if mal else 'no', 'nonempty' if inits else 'empty',
-                                                   'cyclic' if cyc else 'dag', verdict)
+    key = 'malformed=%s;init=%s;%s;verdict=%s' % ('yes' if mal else 'no', 'nonempty' if inits else 'empty',
+                                                  'cyclic' if cyc else 'dag', verdict)
+    if c.get('opaque'):
+        # some updates carried objects that are not data (schedrun.OPAQUE_KINDS)
+        # (two classes: objects that cannot be copied / pickled / compared, and those that cannot be printed either)
+        key += '/opaque-leaf' + ('-unprintable' if c['opaque']['kind'] == 'norepr' else '')
+    return key
 
 
 def replay_case(case):
@@ -549,6 +554,8 @@ def replay_case(case):
         cfg['interrupt'] = c['interrupt']
     if c.get('falsy'):
         cfg['falsy'] = c['falsy']
+    if c.get('opaque'):
+        cfg['opaque'] = c['opaque']
     if c.get('outcome_real'):
         cfg['outcome'] = {str(i + 1): o for i, o in enumerate(c['outcome_real'])}
     ex, trace = schedrun.record(cfg, detsched.Replay(case['schedule']))
@@ -668,6 +675,15 @@ def _common(ctx, invs, mc_runs, witnesses, impl_plan, sim_plan, dfs_plan):
                 cfgs.append(cfg)
         else:
             cfgs = [random_cfg(rng, n, w, outcomes, inits, cyclic, calls=calls) for _ in range(ncfg)]
+        # payload flavour, rotating over the configurations of every mode: every third configuration has tasks whose
+        # update (and DONE entry of the initial environment) carries opaque leaves -- objects that are not data (a real
+        # lock, a generator, a falsy handle that cannot be copied / pickled / compared / printed), see schedrun.OPAQUE_KINDS.
+        # A generator of its own: the configurations themselves stay what they were.
+        orng = random.Random((ctx.seed * 7919 + n * 31 + w + 1000 * calls) * 2 + 1)
+        for k, cfg in enumerate(cfgs):
+            if k % 3 == 1:
+                cfg['opaque'] = dict(kind=schedrun.OPAQUE_KINDS[(k // 3 + n + w) % len(schedrun.OPAQUE_KINDS)],
+                                     tasks=sorted(orng.sample(range(1, n + 1), orng.randint(1, n))))
         all_groups.setdefault((n, w, calls), []).extend(explore(ctx, cfgs, per, ctx.seed))
     _tick(ctx, 'random/PCT exploration')
     for cfg, budget in dfs_plan:
@@ -699,6 +715,8 @@ DIAMOND = dict(n=4, workers=2, edges=[[2, 1, 'hard'], [3, 1, 'soft'], [4, 2, 'ha
 PAIR = dict(n=2, workers=2, edges=[[2, 1, 'hard']], outcome={})
 # a DONE task of an earlier run whose hard dependency must run again and whose soft dependency is slow
 REUSE = dict(n=3, workers=2, edges=[[3, 1, 'hard'], [3, 2, 'soft']], outcome={}, init={'3': 'DONE'})
+# a DONE task of an earlier run in the middle of a chain, its own dependency to be run (again): its dependent must wait for both
+STALE = dict(n=3, workers=2, edges=[[2, 1, 'hard'], [3, 2, 'soft']], outcome={}, init={'2': 'DONE'})
 
 
 def run_c01(ctx):
@@ -716,10 +734,11 @@ def run_c01(ctx):
                        (5, 4, ['ok', 'ok', 'fail', 'raise'], None, False, ctx.pick(8, 40), ctx.pick(8, 25)),
                        (8, 5, ['ok', 'ok', 'ok', 'fail', 'raise', 'none'], None, False, ctx.pick(4, 40), ctx.pick(5, 15)),
                        (4, 2, ['ok', 'ok', 'fail'], None, 'nested', ctx.pick(25, 120), ctx.pick(6, 15)),
-                       (5, 3, ['ok', 'ok', 'raise'], None, 'nested', ctx.pick(15, 80), ctx.pick(6, 15))],
+                       (5, 3, ['ok', 'ok', 'raise'], None, 'nested', ctx.pick(15, 80), ctx.pick(6, 15)),
+                       (3, 2, ['ok', 'ok', 'fail'], None, 'falsy', ctx.pick(10, 50), ctx.pick(4, 10))],
             sim_plan=[('c01sim_n3w2', 3, 2, 'MC_DagEmpty3', ctx.pick(250, 2500), 60),
                       ('c01sim_n2w2', 2, 2, 'MC_DagInit', ctx.pick(100, 800), 50)],
-            dfs_plan=[(PAIR, ctx.pick(1500, 40000)), (REUSE, ctx.pick(1500, 15000))] + ([] if q else [(CHAIN3, 15000)]))
+            dfs_plan=[(PAIR, ctx.pick(1500, 40000)), (REUSE, ctx.pick(1500, 15000)), (STALE, ctx.pick(800, 15000))] + ([] if q else [(CHAIN3, 15000)]))
     # the merge performed by Env.apply: what 'the complete update is readable' rests on
     import conf_envops
     ctx.extra('EnvOps', conf_envops.run, tlc.workdir('c01envops'), 'C01')
@@ -741,7 +760,9 @@ def run_c02(ctx):
                        (8, 4, OUT_ALL, None, False, ctx.pick(4, 40), ctx.pick(5, 15)),
                        (4, 2, OUT_ALL, None, 'nested', ctx.pick(15, 80), ctx.pick(5, 12)),
                        (3, 2, ['ok', 'ok', 'fail', 'raise'], None, 'prior', ctx.pick(20, 100), ctx.pick(4, 10)),
-                       (4, 3, ['ok', 'ok', 'fail', 'none'], None, 'prior', ctx.pick(10, 60), ctx.pick(4, 10))],
+                       (4, 3, ['ok', 'ok', 'fail', 'none'], None, 'prior', ctx.pick(10, 60), ctx.pick(4, 10)),
+                       (3, 2, ['ok', 'ok', 'fail'], None, 'falsy', ctx.pick(12, 60), ctx.pick(4, 10)),      # falsy task objects (round 5: the outcome map must not depend on bool(task))
+                       (4, 3, ['ok', 'ok', 'raise'], None, 'falsy', ctx.pick(8, 40), ctx.pick(4, 10))],
             sim_plan=[('c02sim_n3w2', 3, 2, 'MC_DagEmptyMal', ctx.pick(250, 2500), 60)],
             dfs_plan=[(dict(PAIR, outcome={'1': 'badstatus'}), ctx.pick(1500, 40000))] + ([] if q else [(DIAMOND, 15000)]))
     import conf_decide
@@ -796,6 +817,10 @@ class P(Task):
         super().__init__(name); self.out = out
     def do(self, env, config):
         o = self.out
+        if o == 'ok' and case.get('opaque'):
+            # results that are not data: objects that can only be handed on by reference
+            import threading
+            return {self.name: {'x': 1, 'lock': threading.Lock(), 'res': {'lock': threading.Lock(), 'gen': (x for x in ())}}}, TaskStatus.DONE
         if o == 'ok': return {self.name: {'x': 1}}, TaskStatus.DONE
         if o == 'fail': return {self.name: {'x': 1}}, TaskStatus.FAILED
         if o == 'raise': raise RuntimeError('boom')
@@ -829,7 +854,8 @@ def real_thread_drivers(ctx):
              dict(n=2, workers=1, edges=[[2, 1, 'soft']], outcome={'1': 'badupdate'}),
              dict(n=2, workers=2, edges=[[2, 1, 'hard']], outcome={}, init={'1': 'FAILED'}),
              dict(n=2, workers=2, edges=[[2, 1, 'hard']], outcome={'1': 'nonfinal'}),
-             dict(n=2, workers=2, edges=[[2, 1, 'hard']], outcome={}, calls=2)]
+             dict(n=2, workers=2, edges=[[2, 1, 'hard']], outcome={}, calls=2),
+             dict(n=3, workers=2, edges=[[2, 1, 'hard'], [3, 1, 'soft']], outcome={}, opaque=True)]
     import core
     procs = []
     for case in cases:
@@ -852,7 +878,7 @@ def real_thread_drivers(ctx):
             kinds = sorted(set(case['outcome'].values())) or ['ok']
             key = 'C03/real-threads-process-does-not-exit/outcomes=%s;init=%s;%s' % (
                 ','.join(kinds), ','.join(sorted(set((case.get('init') or {}).values()))) or 'empty',
-                'cyclic' if _cyclic(case) else 'dag')
+                'cyclic' if _cyclic(case) else 'dag') + ('/opaque-leaf' if case.get('opaque') else '')
             ctx.violation(key, 'driver process with stock threading did not come back / exit: %s' % detail,
                           dict(real_threads=case), module='conf_sched', fn='replay_real')
     ctx.cov['real_thread_drivers'] = len(cases)
